@@ -138,7 +138,7 @@ struct Shape {
 };
 
 template<class N, class KeyOf>
-Shape inspect(N* root, int cmp, KeyOf key_of)
+Shape inspect(N* root, int cmp, KeyOf key_of, long node_limit = 10'000'000)
 {
    Shape s;
    if (root == nullptr) return s;
@@ -191,7 +191,7 @@ Shape inspect(N* root, int cmp, KeyOf key_of)
       cur = f.n->right();
       depth = f.depth;
       blacks = f.blacks;
-      if (s.nodes > 10'000'000) {
+      if (s.nodes > node_limit) {
          s.error = "cycle";
          return s;
       }
@@ -208,7 +208,9 @@ const char* predict_fixup(N* root, int cmp, int key, KeyOf key_of)
    if (root == nullptr) return "first";
    N* p = nullptr;
    bool left = false;
+   int steps = 0;
    for (N* x = root; x != nullptr;) {
+      if (++steps > 400) return "corrupt";   // no search path of a tree with < 2^17 keys is that long: the links form a cycle
       int o = order(cmp, key_of(x), key);
       if (o == 0) return "duplicate";
       p = x;
@@ -236,7 +238,7 @@ void exercise(const Case& c, vf::Outcome& out, Tree& tree, std::deque<INode>* st
    bool rotated = false;
    int serial = 0;
    auto validate = [&](const char* when) {
-      Shape s = inspect<N>(tree.top(), c.cmp, [](const N* x) { return Tree::key_of(x); });
+      Shape s = inspect<N>(tree.top(), c.cmp, [](const N* x) { return Tree::key_of(x); }, long(serial) + 8);
       if (!s.error.empty()) {
          out.fail("C08:" + s.error + (c.flavor ? ":intrusive" : ":owning"), std::string(when) + " after " + std::to_string(serial) + " insertions");
          return false;
@@ -257,6 +259,11 @@ void exercise(const Case& c, vf::Outcome& out, Tree& tree, std::deque<INode>* st
    for (std::size_t i = 0; i < n; ++i) {
       const int k = c.keys[i] & (key_limit - 1);
       const char* fx = predict_fixup<N>(tree.top(), c.cmp, k, [](const N* x) { return Tree::key_of(x); });
+      if (std::strcmp(fx, "corrupt") == 0) {
+         // the descent the insertion is about to make does not end: look at the tree now instead of handing it to insert
+         if (validate("before an insertion")) out.fail(std::string("C08:cycle") + (c.flavor ? ":intrusive" : ":owning"), "a search path of more than 400 links");
+         return;
+      }
       out.count(std::string("fixup_") + fx);
       if (std::strncmp(fx, "single", 6) == 0 || std::strncmp(fx, "double", 6) == 0 || std::strncmp(fx, "recolor", 7) == 0) rotated = true;
       ++serial;
